@@ -203,6 +203,26 @@ fn run_on<C: DateRoll>(ctx: &mut Ctx, cal: &C, spec: &CalSpec, starts: &[i64], r
                 }
             }
         }
+        // ---------------- a reversed range has no calendar days, hence no business days
+        if bus {
+            if let Some(earlier) = bits.scan(z - 1 - rng.range_i(0, 40), -1, false) {
+                let got = guarded(|| cal.bus_date_range(&dt, &to_ndt(earlier)).map_err(|_| ()));
+                ctx.eval(1);
+                ctx.asserted(1);
+                ctx.class("bus_date_range:reversed");
+                match got {
+                    Caught::Ok(Ok(v)) if v.is_empty() => {}
+                    Caught::Ok(other) => {
+                        ctx.violation("C05|bus_date_range|reversed-range-not-empty", json!({"calendar": sd, "start": fmt_z(z), "end": fmt_z(earlier), "observed": other.map(|v| v.iter().map(|d| d.to_string()).collect::<Vec<_>>()).ok(), "expected": "[] (the calendar-date range is empty)"}));
+                        return;
+                    }
+                    Caught::Panic { loc, msg } => {
+                        on_panic(ctx, "bus_date_range", &loc, &msg, json!({"calendar": sd, "start": fmt_z(z), "end": fmt_z(earlier)}));
+                        return;
+                    }
+                }
+            }
+        }
         // ---------------- bus_date_range on business end points
         if bus {
             let span = rng.range_i(0, 150);
@@ -243,7 +263,7 @@ impl Prop for C05 {
         tier.pick(12, 16)
     }
     fn required_classes(&self, _tier: Tier) -> Vec<String> {
-        let mut v = vec!["start:business".to_string(), "start:non-business".to_string(), "settlement-moved-backward".into(), "settlement-moved-forward".into(), "bus_date_range:span".into()];
+        let mut v = vec!["start:business".to_string(), "start:non-business".to_string(), "settlement-moved-backward".into(), "settlement-moved-forward".into(), "bus_date_range:span".into(), "bus_date_range:reversed".into()];
         for c in ["n=-128", "n=127", "n=0", "n=1", "n=-1", "n<0", "n>0"] {
             v.push(format!("add_bus_days:{}:settle=false", c));
             v.push(format!("add_bus_days:{}:settle=true", c));
